@@ -17,7 +17,9 @@
                         modes x out_data_bytes from {1,2,3,…,1276,1277,4000,65536,10^6}; multistream with up to 255
                         channels).  One line `C <config>` is printed before each call, `R <ret>` after; a trap ends the
                         process with `O SANITIZER` after the `C` line of the configuration in flight.
-                        `huge`: additionally out_data_bytes = 10^8 and 2^31-1 (honestly allocated buffers). */
+                        A block of forced SILK-only / max-bandwidth WB 20..120 ms frames at the highest rates covers
+                        bitrate_bps*frame_size (:1867).
+                        `huge`: instead out_data_bytes = 10^8 and 2^31-1 (honestly allocated buffers). */
 #include "vcommon.h"
 #include "opus_encoder.c"
 #include "opus_multistream.h"
